@@ -245,6 +245,7 @@ func (r *LayerManager) resolveLayer(ctx context.Context, refspec reference.Spec,
 	}
 	r.mu.Unlock()
 	defer func() {
+		verifBeforeRecordError(key, retErr) // no-op unless built with -tags verif
 		if retErr == nil {
 			return // already recorded by cacheLayer
 		}
